@@ -602,8 +602,9 @@ fn rcb_recurse<const D: usize, W>(
         return;
     }
 
-    let min = bb.p_min[coord] as f32;
-    let max = bb.p_max[coord] as f32;
+    // Finite coordinates beyond the range of f32 must not become infinities.
+    let min = (bb.p_min[coord] as f32).clamp(f32::MIN, f32::MAX);
+    let max = (bb.p_max[coord] as f32).clamp(f32::MIN, f32::MAX);
     let SplitResult {
         left,
         right,
@@ -675,7 +676,7 @@ where
     let mut coords = array_init(|coord| {
         points
             .clone()
-            .map(|point| point[coord] as f32)
+            .map(|point| (point[coord] as f32).clamp(f32::MIN, f32::MAX))
             .collect::<Vec<f32>>()
     });
     let mut weights: Vec<_> = weights.collect();
